@@ -110,6 +110,35 @@ def absorb(out, rep):
         out.inconclusive.append(r)
 
 
+def extra_seed_rounds(out, exe, prop, res, main_secs):
+    """Thorough tier: after the main run, repeat the workload at derived seeds until the time budget is used.  The
+    enumerated parts repeat, the seeded random parts (inputs, histories, schedules, key pools) are new every round.
+    Every round is reproducible from its seed; `distinct_nontrivial` is NOT accumulated (the enumerated part would be
+    counted again), the rounds are listed separately in the evidence."""
+    budget = float(os.environ.get("VERIF_THOROUGH_EXTRA_S", "150"))
+    round_tier = "thorough" if main_secs < 45 else "quick"
+    rounds = []
+    t0 = time.time()
+    i = 0
+    distinct_main = out.distinct_nontrivial
+    while time.time() - t0 < budget and i < 400 and not out.violations:
+        i += 1
+        sd = (common.seed() * 1000003 + i * 7919) % 2147483647
+        rep, status, err = run_harness(exe, ["run", prop, round_tier, str(sd), res], res, TIMEOUTS[round_tier])
+        if rep is None:
+            out.inconclusive.append("extra round at seed %d: %s" % (sd, status))
+            break
+        for v in rep.get("violations", []):
+            if isinstance(v.get("replay"), dict):
+                v["replay"]["harness_seed_of_this_round"] = sd
+                v["replay"]["harness_tier_of_this_round"] = round_tier
+        absorb(out, rep)
+        rounds.append({"seed": sd, "tier": round_tier, "evaluations": rep.get("evaluations", 0), "distinct_nontrivial": rep.get("distinct_nontrivial", 0), "violations": rep.get("violations_total", 0)})
+    out.distinct_nontrivial = distinct_main
+    out.coverage_extra["extra_seed_rounds"] = {"count": len(rounds), "workload": round_tier, "budget_s": budget, "rounds": rounds[:40],
+                                               "evaluations": sum(r["evaluations"] for r in rounds)}
+
+
 def run(prop, tier, replay=None):
     out = common.Outcome(prop, tier)
     out.is_replay = replay is not None
@@ -146,11 +175,14 @@ def run(prop, tier, replay=None):
     if handler is not None:
         handler(out, exe, tier, res)
     else:
+        t0 = time.time()
         rep, status, err = run_harness(exe, ["run", prop, tier, str(common.seed()), res], res, TIMEOUTS[tier])
         if rep is None:
             out.inconclusive.append(status)
         else:
             absorb(out, rep)
+            if tier == "thorough":
+                extra_seed_rounds(out, exe, prop, res, time.time() - t0)
     try:
         if os.path.exists(res):
             os.remove(res)
